@@ -197,7 +197,8 @@ CLAIMS["C08"] = {
     "text": "For every first byte, lookahead byte, all 1536 option sets and abstract names: each token kind is produced "
             "exactly under the spelling and option that governs it, independent of the name's first byte class; numbers "
             "only when the whole token is a literal (also in leading-digit mode); quote shorthands map to the four "
-            "heads; lists close only at their own closer, dotted tails included.",
+            "heads; lists and vectors close only at their own closer, dotted tails included; the option sets are exactly "
+            "what the public builder API produces (each with_* changes one field, getters, disjoint keyword flags, presets).",
     "note": "Names are abstracted to three predicates (is nil, is t, ends with ':'); the scanners below parse_token are "
             "separate claims. Non-interference between options follows from the classifier the code is checked against.",
 }
@@ -209,7 +210,8 @@ CLAIMS["C10"] = {
             "reader / token / callee behaviour the datum variant takes exactly the same steps with the same arguments, "
             "error codes, depth budget and empty/non-empty outcome. Accessors: one step of datum::ListIter::next from each "
             "of its 4 states over an abstract cell yields what the value's own accessors expose (car with its span; pair -> "
-            "next cell, () -> end, anything else incl. #nil -> None then the tail once).",
+            "next cell, () -> end, anything else incl. #nil -> None then the tail once); the four Datum constructors attach "
+            "span information of the same shape as the value.",
     "note": "The accessor claim assumes span information shaped as the builders shape it (SpanInfo::Cons / Vec exactly "
             "where the value is a pair / vector); vector_iter and as_pair are not separate claims.",
 }
